@@ -57,7 +57,8 @@ def grid_float(lo, hi, q=0.01):
 def lab_spec(draw, name, *, kind=None, max_rows=8, max_cols=6, regime="roomy", grid=True, q=0.01, min_zero=None, allow_names=True, pos=None, filled=None, legacy=None):
     """One labware specification.
 
-    regime: "roomy" (limits never interfere), "tight" (limits of the order of the transferred volumes)
+    regime: "roomy" (limits never interfere), "tight" (limits of the order of the transferred volumes, 20-400 uL),
+            "large" (as tight, with limits of 2000-60000 uL)
     grid: all numbers multiples of 0.01 (else arbitrary floats)
     filled: None = random, True = every well holds liquid
     """
@@ -74,6 +75,11 @@ def lab_spec(draw, name, *, kind=None, max_rows=8, max_cols=6, regime="roomy", g
         vmax = draw(st.sampled_from([1e5, 5e4, 250000.0]))
         vmin = 0.0 if (min_zero or (min_zero is None and draw(st.booleans()))) else draw(num(max(q, 0.01), 50))
         hi_init = 20000.0
+    elif regime == "large":
+        # deep-well plates and reservoirs: limits of the order of the volumes again, but three orders of magnitude up
+        vmax = draw(num(2000, 60000))
+        vmin = 0.0 if (min_zero or (min_zero is None and draw(st.booleans()))) else draw(num(max(q, 0.01), 500))
+        hi_init = vmax
     else:
         vmax = draw(num(20, 400))
         vmin = 0.0 if (min_zero or (min_zero is None and draw(st.booleans()))) else draw(num(max(q, 0.01), 15))
@@ -86,6 +92,10 @@ def lab_spec(draw, name, *, kind=None, max_rows=8, max_cols=6, regime="roomy", g
         flat = [v] * nreal
     else:
         levels = draw(st.lists(num(0, hi_init), min_size=1, max_size=4))
+        if regime == "large" and draw(st.booleans()):
+            # wells within a few hundred uL of a limit, so that one pipetting step can reach it
+            levels = [max(float(vmin), vmax - (x % 300.0)) if i % 2 == 0 else min(vmax, vmin + (x % 300.0)) for i, x in enumerate(levels)]
+            levels = [round(x, 2) for x in levels] if grid and q == 0.01 else levels
         stride = draw(st.integers(1, 3))
         flat = [levels[(i * stride + i // max(cols, 1)) % len(levels)] for i in range(nreal)]
         if style == "some-empty":
@@ -123,6 +133,8 @@ def lab_spec(draw, name, *, kind=None, max_rows=8, max_cols=6, regime="roomy", g
                             names[wid(r, c)] = pool[(r + c) % 2]
                         elif (r + c) % 2 == 0:
                             names[wid(r, c)] = pool[(r * 3 + c) % len(pool)]
+                        elif (r + c) % 4 == 1:
+                            names[wid(r, c)] = None  # "no name given" said explicitly: the default name applies
         spec["names"] = names
     else:
         spec["vrows"] = rows
